@@ -26,7 +26,7 @@ def run_all(checks):
     return verdicts
 
 def main():
-    ids = sys.argv[1:]
+    ids = [a for a in sys.argv[1:] if not a.startswith('--')]
     checks = [c['property_id'] for c in json.load(open(os.path.join(VERIF, 'MANIFEST.json')))['checks']]
     items = []
     for d in sorted(glob.glob(os.path.join(VERIF, 'seeded', 'C*-*'))):
@@ -43,7 +43,7 @@ def main():
     assert rc == 0, o
     results = {}
     rp = os.path.join(VERIF, 'seeded', 'results.json' if SN == 1 else 'results-%d.json' % SI)
-    if os.path.exists(rp) and ids:
+    if os.path.exists(rp) and ids and SN == 1:
         results = json.load(open(rp))
     try:
         for sid, patch, kind in items:
@@ -95,6 +95,9 @@ def write_table(results):
 if __name__ == '__main__':
     if len(sys.argv) > 1 and sys.argv[1] == '--merge':
         res = {}
+        rp0 = os.path.join(VERIF, 'seeded', 'results.json')
+        if '--update' in sys.argv and os.path.exists(rp0):
+            res = json.load(open(rp0))          # partial run: keep the verdicts of the patches that were not re-run
         for f in sorted(glob.glob(os.path.join(VERIF, 'seeded', 'results-*.json'))):
             res.update(json.load(open(f)))
             os.remove(f)
